@@ -171,7 +171,13 @@ func c10ring(e c10enz, orient []bool, gaps []int) string {
 		} else {
 			b.WriteString(take(e.ohl+e.skip) + c10rc(e.site))
 		}
-		b.WriteString(take(e.ohl + gaps[i]))
+		switch gaps[i] {
+		case -99: // nothing between this site's overhang and the next site's: an empty interior
+		case -98:
+			b.WriteString(take(1))
+		default:
+			b.WriteString(take(e.ohl + gaps[i]))
+		}
 	}
 	if len(orient) == 0 {
 		b.WriteString(take(40))
@@ -197,9 +203,9 @@ func c10units(tier string) []mc.Unit {
 	var us []mc.Unit
 	thorough := tier == "thorough"
 	maxK := tier2(tier, 3, 4)
-	gapVals := []int{0, 7}
+	gapVals := []int{0, 7, -99} // -99: cuts exactly two overhang lengths apart (empty interior); -98: one base between
 	if thorough {
-		gapVals = []int{0, 1, 7, 23}
+		gapVals = []int{0, 1, 7, 23, -99, -98}
 	}
 	enz := c10enzymes[:7]
 	if thorough {
